@@ -51,7 +51,7 @@ theorem cached_token_sound : ∀ c : CNode, cacheOK c → nfC c = nodeNF (erase 
       rw [nfCL_sound args h.2.1, kwC_sound kws h.2.2]
   | .cont k args, h => by
     simp only [cacheOK] at h
-    simp only [nfC, erase, nodeNF, tokensC_sound args h]
+    cases k <;> simp only [nfC, erase, nodeNF, tokensC_sound args h]
   | .dict items, h => by
     simp only [cacheOK] at h
     simp only [nfC, erase, nodeNF, pairTokensC_sound items h]
@@ -89,7 +89,7 @@ theorem fresh_ok : ∀ n : Node, cacheOK (fresh n) ∧ erase (fresh n) = n
   | .task f args kws => by
     obtain ⟨h1, e1⟩ := freshL_ok args
     obtain ⟨h2, e2⟩ := freshKw_ok kws
-    exact ⟨by simp only [fresh, cacheOK]; exact ⟨by intro t ht; cases ht, h1, h2⟩, by simp only [fresh, erase, e1, e2]⟩
+    exact ⟨by simp only [fresh, cacheOK]; exact ⟨(by intro t ht; cases ht), h1, h2⟩, by simp only [fresh, erase, e1, e2]⟩
   | .cont k args => by
     obtain ⟨h1, e1⟩ := freshL_ok args
     exact ⟨by simpa only [fresh, cacheOK] using h1, by simp only [fresh, erase, e1]⟩
@@ -136,7 +136,7 @@ theorem force_ok : ∀ c : CNode, cacheOK c → cacheOK (forceC c) ∧ erase (fo
       refine ⟨?_, h1, h2⟩
       intro t ht
       simp only [Option.some.injEq] at ht
-      rw [← ht, cached_token_sound (.task f args kws none) (by simp only [cacheOK]; exact ⟨by intro t ht; cases ht, h.2.1, h.2.2⟩)]
+      rw [← ht, cached_token_sound (.task f args kws none) (by simp only [cacheOK]; exact ⟨(by intro t ht; cases ht), h.2.1, h.2.2⟩)]
       simp only [erase, e1, e2]
   | .cont k args, h => by
     simp only [cacheOK] at h
@@ -226,7 +226,7 @@ theorem subst_ok (hit : Val → Bool) (new : Val → Val) : ∀ c : CNode, cache
     · simp only [cacheOK] at h
       obtain ⟨h1, e1⟩ := substL_ok hit new args h.2.1
       obtain ⟨h2, e2⟩ := substKw_ok hit new kws h.2.2
-      exact ⟨by simp only [cacheOK]; exact ⟨by intro t ht; cases ht, h1, h2⟩, by simp only [erase, substN, e1, e2]⟩
+      exact ⟨by simp only [cacheOK]; exact ⟨(by intro t ht; cases ht), h1, h2⟩, by simp only [erase, substN, e1, e2]⟩
     · rename_i hno
       refine ⟨h, ?_⟩
       have : anyHit hit (.task f args kws cache) = false := by
@@ -293,7 +293,7 @@ end
 theorem copy_ok : ∀ c : CNode, cacheOK c → cacheOK (copyC c) ∧ erase (copyC c) = erase c
   | .task f args kws cache, h => by
     simp only [cacheOK] at h
-    exact ⟨by simp only [copyC, cacheOK]; exact ⟨by intro t ht; cases ht, h.2.1, h.2.2⟩, rfl⟩
+    exact ⟨by simp only [copyC, cacheOK]; exact ⟨(by intro t ht; cases ht), h.2.1, h.2.2⟩, rfl⟩
   | .lit _, h => ⟨h, rfl⟩
   | .ref _, h => ⟨h, rfl⟩
   | .alias _ _, h => ⟨h, rfl⟩
@@ -385,7 +385,8 @@ theorem stale_token_witness :
     let t' := substKeepToken (fun k => k matches .str "x") (fun _ => .str "y") t
     nfC t' = nfC t ∧ nodeNF (erase t') ≠ nodeNF (erase t) ∧ ¬ cacheOK t' := by
   refine ⟨rfl, ?_, ?_⟩
-  · simp [substKeepToken, forceC, fresh, freshL, freshKw, erase, eraseL, eraseKw, substCL, substC, substCKw, nodeNF, nodeNFL]
+  · simp [substKeepToken, forceC, forceCL, forceCKw, fresh, freshL, freshKw, erase, eraseL, eraseKw, substCL, substC,
+      substCKw, nodeNF, nodeNFL]
   · intro h
     simp only [substKeepToken, forceC, fresh, freshL, freshKw, forceCL, forceCKw, substCL, substC, substCKw, cacheOK] at h
     have := h.1 _ rfl
